@@ -149,12 +149,12 @@ fn one(ctx: &mut Ctx, probe: Option<&str>, idx: u64) {
 
 pub fn run(ctx: &mut Ctx) {
     // systematic collision probe: every family, two parameterisations on identical argument types
-    let reps = ctx.q(4u64, 40);
+    let reps = ctx.q(20u64, 200);
     ctx.cases("probe", FAMILIES.len() as u64 * reps, |ctx, idx| {
         let fam = FAMILIES[(idx % FAMILIES.len() as u64) as usize];
         one(ctx, Some(fam), idx);
     });
-    let total = ctx.q(1200, 30000);
+    let total = ctx.q(12000, 200000);
     ctx.cases("mix", total, |ctx, idx| {
         one(ctx, None, idx);
     });
